@@ -88,6 +88,8 @@ type Lane struct {
 	WaitEnd bool `json:"wait_end,omitempty"`
 	// SkipID: the lane leaves one odd stream id unused below its own (ops with StreamRef -2 refer to that id)
 	SkipID bool `json:"skip_id,omitempty"`
+	// AfterCancel (client-side runs): the scripted response starts only once the caller's cancel has been issued
+	AfterCancel bool `json:"after_cancel,omitempty"`
 }
 
 // Req is a well-formed request as the peer means it.
@@ -107,6 +109,8 @@ type Fault struct {
 	At   int64  `json:"at"`   // byte offset for cut/werr; ignored otherwise
 	// AfterOps: the fault action becomes enabled once that many peer ops have been sent (-1: from the start)
 	AfterOps int `json:"after_ops"`
+	// AfterReqs (client-side runs): ... and once the scripted server has seen that many requests
+	AfterReqs int `json:"after_reqs,omitempty"`
 }
 
 // SrvPlan is the complete, explicit workload of one server-side run. It is what a replay file stores.
